@@ -131,20 +131,7 @@ func checkC07(p *Program, r *Result) {
 		// the hashed buffer is filled by ReadFull of the same slice
 		hashed := checksumData(sumCall)
 		full := false
-		for _, ci := range callsIn(lc, func(ci ssa.CallInstruction) bool {
-			if calleeIs(ci, "io.ReadFull") {
-				return true
-			}
-			// io.ReadAtLeast(r, d, len(d)) is the same read
-			if calleeIs(ci, "io.ReadAtLeast") && len(ci.Common().Args) == 3 {
-				if c, ok := stripConv(ci.Common().Args[2]).(*ssa.Call); ok {
-					if b, ok := c.Call.Value.(*ssa.Builtin); ok && b.Name() == "len" && c.Call.Args[0] == ci.Common().Args[1] {
-						return true
-					}
-				}
-			}
-			return false
-		}) {
+		for _, ci := range callsIn(lc, isExactFullRead) {
 			if sameSliceShape(ci.Common().Args[1], hashed) && instrDominates(ci, sumCall) {
 				full = true
 			}
@@ -405,4 +392,19 @@ func checksumData(c *ssa.Call) ssa.Value {
 		return c.Call.Args[2]
 	}
 	return c.Call.Args[0]
+}
+
+// isExactFullRead: io.ReadFull(r, d), or the equivalent io.ReadAtLeast(r, d, len(d)).
+func isExactFullRead(ci ssa.CallInstruction) bool {
+	if calleeIs(ci, "io.ReadFull") {
+		return true
+	}
+	if calleeIs(ci, "io.ReadAtLeast") && len(ci.Common().Args) == 3 {
+		if c, ok := stripConv(ci.Common().Args[2]).(*ssa.Call); ok {
+			if b, ok := c.Call.Value.(*ssa.Builtin); ok && b.Name() == "len" && c.Call.Args[0] == ci.Common().Args[1] {
+				return true
+			}
+		}
+	}
+	return false
 }
